@@ -46,6 +46,7 @@ type E7Spec struct {
 	BulkOverwrite []FuncRuleSpec     `json:"bulk_overwrite"`
 	SharedBacking []FuncRuleSpec     `json:"shared_backing"`
 	LossyIdent    []LossyIdentSpec   `json:"lossy_identifier"`
+	ListFields    []ListFieldSpec    `json:"list_fields"`
 }
 
 type FuncRuleSpec struct {
@@ -174,6 +175,9 @@ func runE7(p *Program, sp *Spec, c *Collector) {
 	}
 	for _, li := range t.LossyIdent {
 		runLossyIdent(p, c, li)
+	}
+	for _, lf := range t.ListFields {
+		runListFields(p, c, lf)
 	}
 	for _, n := range t.NoExit {
 		runNoExit(p, sp, c, n)
@@ -2866,5 +2870,82 @@ func runLossyIdent(p *Program, c *Collector, li LossyIdentSpec) {
 	}
 	if sites < li.Min {
 		c.Anchor(li.Props, "E7: lossy identifier: %d registration sites found, %d confirmed by hand", sites, li.Min)
+	}
+}
+
+// ---------------------------------------------------------------------------------------------
+// list-valued tree fields: some fields of a syntax tree hold a list of *equals* (go/ast: the names of `X, Y int` are one
+// Field with two Names). A function that reads such a field at a constant position and never walks it records the first of
+// several only. Which fields are lists of equals comes from the library's documentation (the table), not from the code.
+type ListFieldSpec struct {
+	Props []string `json:"props"`
+	Funcs []string `json:"funcs"`
+	Type  string   `json:"type"`  // "<import path>.<struct>"
+	Field string   `json:"field"` // list-valued field
+	Min   int      `json:"min"`   // readers confirmed by hand
+	What  string   `json:"what"`
+}
+
+func runListFields(p *Program, c *Collector, lf ListFieldSpec) {
+	readers := 0
+	for _, fn := range expandFuncs(p, c, lf.Funcs, lf.Props...) {
+		var constAt, walked ssa.Instruction
+		reads := false
+		isList := func(v ssa.Value) bool {
+			// a load of <Type>.<Field>, possibly re-sliced
+			for {
+				if sl, ok := v.(*ssa.Slice); ok {
+					v = sl.X
+					continue
+				}
+				break
+			}
+			u, ok := v.(*ssa.UnOp)
+			if !ok || u.Op != token.MUL {
+				return false
+			}
+			fa, ok := u.X.(*ssa.FieldAddr)
+			if !ok {
+				return false
+			}
+			return fieldFullName(fa.X.Type(), fa.Field) == lf.Type+"."+lf.Field
+		}
+		for _, b := range fn.Blocks {
+			for _, in := range b.Instrs {
+				var x, idx ssa.Value
+				switch e := in.(type) {
+				case *ssa.IndexAddr:
+					x, idx = e.X, e.Index
+				case *ssa.Index:
+					x, idx = e.X, e.Index
+				default:
+					continue
+				}
+				if !isList(x) {
+					continue
+				}
+				reads = true
+				if _, isConst := idx.(*ssa.Const); isConst {
+					if constAt == nil {
+						constAt = in
+					}
+				} else {
+					walked = in
+				}
+			}
+		}
+		if !reads {
+			continue
+		}
+		readers++
+		key := "listfield:" + p.FuncKey(fn) + " " + lf.Field
+		if constAt != nil && walked == nil {
+			c.Ob(lf.Props, "E7.list-field", key, Violated, lf.What+": "+shortFn(p.FuncKey(fn))+" reads "+lf.Type+"."+lf.Field+" at a fixed position and never walks it: of several entries only one is recorded", p.InstrPos(constAt), false)
+		} else {
+			c.Ob(lf.Props, "E7.list-field", key, Discharged, shortFn(p.FuncKey(fn))+" walks every entry of "+lf.Field, p.FuncPos(fn), true)
+		}
+	}
+	if readers < lf.Min {
+		c.Anchor(lf.Props, "E7: list field %s.%s: %d reading functions found, %d confirmed by hand", lf.Type, lf.Field, readers, lf.Min)
 	}
 }
